@@ -335,7 +335,17 @@ func (b *vBed) snapshot(shard uint64) error {
 			return err
 		}
 	}
-	return e.WriteSnapshot()
+	err = e.WriteSnapshot()
+	if err == errSnapshotsDisabled {
+		// Store.monitorShards (every 10 s) frees a shard it finds idle, which disables snapshot compactions; when
+		// that lands right after a write made the shard busy again, the cache is non-empty with snapshots
+		// disabled until the next tick or write re-enables them. Do what Store.WriteToShard does and retry.
+		if sh := b.store.Shard(shard); sh != nil {
+			sh.SetCompactionsEnabled(true)
+		}
+		err = e.WriteSnapshot()
+	}
+	return err
 }
 
 // compact runs the engine's own planner and strategies synchronously. It returns the number of groups compacted.
